@@ -436,12 +436,12 @@ def run(ctx):
         except Exception as e:
             ctx.note("corpus file %s unreadable: %s" % (p, e))
     counts = dict(layout=80, escq=30, lonebs=20, crlf=8, poststop=25) if ctx.quick else \
-        dict(layout=2500, escq=500, lonebs=300, crlf=100, poststop=600)
+        dict(layout=1200, escq=250, lonebs=150, crlf=50, poststop=300)
     for cat, n in counts.items():
         for _ in range(n):
             cases.append(gen_script(rng, cat))
     # invalid tails after exit (model-vs-binary only)
-    for _ in range(20 if ctx.quick else 300):
+    for _ in range(20 if ctx.quick else 150):
         c = gen_script(rng, "poststop")
         c["text"] += rng.choice([")", "))", "(foo)", " (check-sat", "(echo \"x\") )", ") (echo \"y\")", "(exit))"])
         c["valid"], c["cmds"], c["cat"] = False, None, "poststop-invalid"
